@@ -1,13 +1,27 @@
 ------------------------------- MODULE LexStr -------------------------------
 (* C12 case generation: byte strings to be pushed through the real Escape/Unescape *)
-(* and EncodeName/DecodeName.  Every state is one input string.                   *)
+(* and EncodeName/DecodeName.  Every state is one case (s, cps, file):            *)
+(*   s    the byte string;                                                        *)
+(*   cps  non-empty for text cases: s = TextBytes(cps) is the UTF-16BE text string *)
+(*        of the code points cps and the case also goes through the text string   *)
+(*        API (EscapedUTF16String and its readers);                               *)
+(*   file the string (as a name: dictionary key and name value) is also written   *)
+(*        into a real PDF - once inside an object stream, once as a plain object -*)
+(*        and read back.                                                          *)
 (*   Mode "alpha" : all strings of length MinLen..MaxLen over the class alphabet   *)
 (*                  (every byte the escaping/name rules single out + one member of *)
 (*                  every other range) plus NRand seeded longer strings            *)
 (*   Mode "bytes1": all 256 single bytes      Mode "bytes2": all 65536 byte pairs *)
+(*   Files: name cases = alphabet strings up to FileMaxLen without NUL, plus the   *)
+(*          name grammar family (escape introducer '#' followed by 0, 1, 2 hex or  *)
+(*          non-hex characters, with and without context)                         *)
+(*   TextLevel 1/2: text cases over code points chosen by their UTF-16BE BYTES:    *)
+(*          every escaped/delimiter byte at every byte position of a BMP code unit *)
+(*          and of a surrogate pair (positions 2 and 4), alone and next to others  *)
 EXTENDS Lex, TLC, Json
-CONSTANTS Mode, MinLen, MaxLen, AlphaN, NRand, Seed, Slice, NSlices
-VARIABLE s
+CONSTANTS Mode, MinLen, MaxLen, AlphaN, NRand, Seed, Slice, NSlices, Files, FileMaxLen, TextLevel
+VARIABLES s, cps, file
+vars == <<s, cps, file>>
 
 AlphaAll == << 92, 40, 41, 13, 10, 9, 8, 12,    \* \ ( ) CR LF TAB BS FF
                48, 55, 56,                      \* 0 7 8 (octal / non octal digits)
@@ -26,14 +40,39 @@ RandCase(k) == LET x0 == LCG(((Seed % 65537) * 7919 + k * 31337) % 65537) IN Ran
 (* Slice/NSlices split the case space by first symbol so that slices can be generated in parallel *)
 Mine(S) == {x \in S : x % NSlices = Slice}
 IsAlpha == Mode \in {"alpha", "alpha+bytes1"}
-Init == \/ IsAlpha /\ MinLen = 0 /\ Slice = 0 /\ s = <<>>
+NoNul(b) == \A i \in 1..Len(b) : b[i] # 0
+Bytes(b) == s = b /\ cps = <<>> /\ file = (Files /\ IsAlpha /\ Len(b) <= FileMaxLen /\ NoNul(b))
+
+(* ---- name grammar family (7.3.5): '#' followed by 0..2 characters that are hex digits, non-hex or '#' *)
+HexAlpha == {48, 49, 52, 97, 70, 120, 35}                 \* 0 1 4 a F x #
+NameGrammar == {pre \o <<35>> \o h \o suf : pre \in {<<>>, <<71, 83>>}, suf \in {<<>>, <<90>>},
+                                             h \in UNION {[1..n -> HexAlpha] : n \in 0..2}}
+
+(* ---- text cases: code points chosen by the bytes of their UTF-16BE code units *)
+EscBytes == <<40, 41, 92, 13, 10, 9, 8, 12>>               \* ( ) \ CR LF TAB BS FF: the bytes Escape treats specially
+TB == {EscBytes[i] : i \in 1..(IF TextLevel >= 2 THEN 8 ELSE 5)} \cup {65}
+BmpCp(h, l) == h * 256 + l                                 \* code unit h l
+(* surrogate pair D8+a b2 DC+g b4: bytes 2 and 4 of the pair are free *)
+AstCp(a, b2, g, b4) == 65536 + ((a * 256 + b2) * 1024) + (g * 256 + b4)
+Ast(b2, b4) == AstCp((b2 + b4) % 4, b2, (b2 * 3 + b4) % 4, b4)
+ASSUME \A a \in 0..3, g \in 0..3, b2 \in TB, b4 \in TB : Utf16BE(AstCp(a, b2, g, b4)) = <<216 + a, b2, 220 + g, b4>>
+BmpSet == {BmpCp(h, l) : h \in TB \cup {0}, l \in TB}
+AstSet == {Ast(b2, b4) : b2 \in TB, b4 \in TB}
+AdjSet == {40, 41, 92, 65, BmpCp(92, 65), BmpCp(65, 92), BmpCp(40, 41)}    \* BMP neighbours: ( ) \ A U+5C41 U+415C U+2829
+TextCases == {<<cp>> : cp \in BmpSet \cup AstSet}
+             \cup {<<a, b>> : a \in AstSet, b \in AdjSet} \cup {<<b, a>> : a \in AstSet, b \in AdjSet}
+             \cup (IF TextLevel >= 2 THEN {<<a, b>> : a \in BmpSet \cup AstSet, b \in BmpSet \cup AstSet} ELSE {<<a, b>> : a \in AstSet, b \in {Ast(40, 92), Ast(92, 41), Ast(65, 92)}})
+
+Init == \/ IsAlpha /\ MinLen = 0 /\ Slice = 0 /\ Bytes(<<>>)
         \/ IsAlpha /\ \E i \in Mine(1..Len(AlphaS)) : \E k \in 0..(MaxLen - 1) : \E f \in [1..k -> Alpha] :
-               k + 1 >= MinLen /\ s = <<AlphaS[i]>> \o f
-        \/ IsAlpha /\ \E k \in Mine(1..NRand) : s = RandCase(k)
-        \/ Mode \in {"bytes1", "alpha+bytes1"} /\ \E b \in Mine(Byte) : s = <<b>>
-        \/ Mode = "bytes2" /\ \E a \in Mine(Byte) : \E b \in Byte : s = <<a, b>>
-Next == FALSE /\ UNCHANGED s
-Spec == Init /\ [][Next]_s
+               k + 1 >= MinLen /\ Bytes(<<AlphaS[i]>> \o f)
+        \/ IsAlpha /\ \E k \in Mine(1..NRand) : Bytes(RandCase(k))
+        \/ Mode \in {"bytes1", "alpha+bytes1"} /\ \E b \in Mine(Byte) : Bytes(<<b>>)
+        \/ Mode = "bytes2" /\ \E a \in Mine(Byte) : \E b \in Byte : Bytes(<<a, b>>)
+        \/ Files /\ Slice = 0 /\ \E n \in NameGrammar : s = n /\ cps = <<>> /\ file = TRUE
+        \/ TextLevel >= 1 /\ Slice = 0 /\ \E t \in TextCases : s = TextBytes(t) /\ cps = t /\ file = FALSE
+Next == FALSE /\ UNCHANGED vars
+Spec == Init /\ [][Next]_vars
 
 (* design checks of the reference operators on every generated string: the textbook  *)
 (* escaping (backslash before \ ( )) is balanced and RefUnescape inverts it.          *)
@@ -49,5 +88,5 @@ RefEnc(b) == IF b = <<>> THEN <<>>
                    ELSE <<35, Hx(Head(b) \div 16), Hx(Head(b) % 16)>>) \o RefEnc(Tail(b))
 RefNameRoundTrip == NameCharOK(RefEnc(s)) /\ RefDecodeName(RefEnc(s)) = s
 
-EmitCase == PrintT(<<"CASE", ToJson([s |-> s])>>)
+EmitCase == PrintT(<<"CASE", ToJson([s |-> s, cps |-> cps, file |-> file])>>)
 =============================================================================
